@@ -76,3 +76,452 @@ package defaultgrouper
 //@   ensures [projectAlone] noQueueLabel(dg, topOwner, pod) && projectOf(topOwner, pod) != "" && !(dg.nodePoolLabelKey in pod.Labels) ==> result == projectOf(topOwner, pod)
 //@   ensures [projectWithNodePool] noQueueLabel(dg, topOwner, pod) && projectOf(topOwner, pod) != "" && (dg.nodePoolLabelKey in pod.Labels) ==> result == ite(projectPool(dg, topOwner, pod) == "", constants.DefaultQueueName, projectPool(dg, topOwner, pod))
 //@ end
+
+// =====================================================================================================
+// grp2: library model shared by every pod-grouper plugin (referenced from the plugin contract files as
+// defaultgrouper.<name>). ASSUMED: the accessors of an unstructured object / of a decoded JSON tree are
+// deterministic, read-only functions of (object, constant field path). Within one reconcile the owner
+// object is not modified by anybody else, so these are functions of the object reference.
+// =====================================================================================================
+
+// ---- field paths: one uninterpreted key per path length (the engine cannot key a declare by a slice) ----
+//@ declare pk1(a string) int
+//@ declare pk2(a string, b string) int
+//@ declare pk3(a string, b string, c string) int
+//@ declare pk4(a string, b string, c string, d string) int
+//@ declare pk5(a string, b string, c string, d string, e string) int
+//@ declare pk6(a string, b string, c string, d string, e string, f string) int
+//@ declare pkLong(n int) int
+//@ define pathKey(f []string) int = ite(len(f) == 1, pk1(f[0]), ite(len(f) == 2, pk2(f[0], f[1]), ite(len(f) == 3, pk3(f[0], f[1], f[2]), ite(len(f) == 4, pk4(f[0], f[1], f[2], f[3]), ite(len(f) == 5, pk5(f[0], f[1], f[2], f[3], f[4]), ite(len(f) == 6, pk6(f[0], f[1], f[2], f[3], f[4], f[5]), pkLong(len(f))))))))
+
+// ---- unstructured.Nested* : value / found / error as functions of (tree, path) ----
+//@ declare nI64(o map[string]interface{}, p int) int
+//@ declare nI64Found(o map[string]interface{}, p int) bool
+//@ declare nI64Err(o map[string]interface{}, p int) error
+//@ func k8s.io/apimachinery/pkg/apis/meta/v1/unstructured.NestedInt64
+//@   trusted
+//@   note library (apimachinery helpers.go): walks map[string]interface{} along the path; returns (0,false,nil) when absent, (0,false,err) when a step or the leaf has the wrong type
+//@   pure
+//@   ensures result0 == nI64(obj, pathKey(fields))
+//@   ensures result1 == nI64Found(obj, pathKey(fields))
+//@   ensures result2 == nI64Err(obj, pathKey(fields))
+//@   ensures result2 != nil ==> !result1
+//@   ensures !result1 ==> result0 == 0
+//@ end
+
+//@ declare nStr(o map[string]interface{}, p int) string
+//@ declare nStrFound(o map[string]interface{}, p int) bool
+//@ declare nStrErr(o map[string]interface{}, p int) error
+//@ func k8s.io/apimachinery/pkg/apis/meta/v1/unstructured.NestedString
+//@   trusted
+//@   note library (apimachinery helpers.go), as NestedInt64 for a string leaf
+//@   pure
+//@   ensures result0 == nStr(obj, pathKey(fields))
+//@   ensures result1 == nStrFound(obj, pathKey(fields))
+//@   ensures result2 == nStrErr(obj, pathKey(fields))
+//@   ensures result2 != nil ==> !result1
+//@   ensures !result1 ==> result0 == ""
+//@ end
+
+//@ declare nBool(o map[string]interface{}, p int) bool
+//@ declare nBoolFound(o map[string]interface{}, p int) bool
+//@ declare nBoolErr(o map[string]interface{}, p int) error
+//@ func k8s.io/apimachinery/pkg/apis/meta/v1/unstructured.NestedBool
+//@   trusted
+//@   note library (apimachinery helpers.go), as NestedInt64 for a bool leaf
+//@   pure
+//@   ensures result0 == nBool(obj, pathKey(fields))
+//@   ensures result1 == nBoolFound(obj, pathKey(fields))
+//@   ensures result2 == nBoolErr(obj, pathKey(fields))
+//@   ensures result2 != nil ==> !result1
+//@   ensures !result1 ==> !result0
+//@ end
+
+// ---- remaining accessors of *unstructured.Unstructured (ASSUMED like GetName/GetUID/GetLabels above) ----
+//@ declare ownerAnnotations(o *unstructured.Unstructured) map[string]string
+//@ declare ownerAPIVersion(o *unstructured.Unstructured) string
+//@ declare ownerKind(o *unstructured.Unstructured) string
+//@ declare ownerNamespace(o *unstructured.Unstructured) string
+// group / version halves of an apiVersion string ("group/version" or "version"): schema.ParseGroupVersion
+//@ declare gvGroup(apiVersion string) string
+//@ declare gvVersion(apiVersion string) string
+// GroupKind.String(): "Kind.group" or "Kind"
+//@ declare gkString(group string, kind string) string
+
+//@ func (*k8s.io/apimachinery/pkg/apis/meta/v1/unstructured.Unstructured).GetAnnotations
+//@   trusted
+//@   note library accessor (NestedStringMap copy of metadata.annotations), body not loaded; the returned map is treated as a function of the object, read-only use
+//@   pure
+//@   ensures result == ownerAnnotations(u)
+//@ end
+//@ func (*k8s.io/apimachinery/pkg/apis/meta/v1/unstructured.Unstructured).GetAPIVersion
+//@   trusted
+//@   note library accessor, body not loaded; read-only
+//@   pure
+//@   ensures result == ownerAPIVersion(u)
+//@ end
+//@ func (*k8s.io/apimachinery/pkg/apis/meta/v1/unstructured.Unstructured).GetKind
+//@   trusted
+//@   note library accessor, body not loaded; read-only
+//@   pure
+//@   ensures result == ownerKind(u)
+//@ end
+//@ func (*k8s.io/apimachinery/pkg/apis/meta/v1/unstructured.Unstructured).GetNamespace
+//@   trusted
+//@   note library accessor, body not loaded; read-only
+//@   pure
+//@   ensures result == ownerNamespace(u)
+//@ end
+//@ func (*k8s.io/apimachinery/pkg/apis/meta/v1/unstructured.Unstructured).GroupVersionKind
+//@   trusted
+//@   note library: schema.FromAPIVersionAndKind(u.GetAPIVersion(), u.GetKind()); body not loaded
+//@   pure
+//@   ensures result.Group == gvGroup(ownerAPIVersion(u))
+//@   ensures result.Version == gvVersion(ownerAPIVersion(u))
+//@   ensures result.Kind == ownerKind(u)
+//@ end
+//@ func (*k8s.io/apimachinery/pkg/apis/meta/v1.TypeMeta).GroupVersionKind
+//@   trusted
+//@   note library: schema.FromAPIVersionAndKind(obj.APIVersion, obj.Kind); body not loaded
+//@   pure
+//@   ensures result.Group == gvGroup(obj.APIVersion)
+//@   ensures result.Version == gvVersion(obj.APIVersion)
+//@   ensures result.Kind == obj.Kind
+//@ end
+//@ func (k8s.io/apimachinery/pkg/runtime/schema.GroupVersionKind).GroupKind
+//@   trusted
+//@   note library: projection, body not loaded
+//@   pure
+//@   ensures result.Group == gvk.Group
+//@   ensures result.Kind == gvk.Kind
+//@ end
+//@ func (k8s.io/apimachinery/pkg/runtime/schema.GroupKind).String
+//@   trusted
+//@   note library: "Kind.group" / "Kind"; an uninterpreted function of the two strings
+//@   pure
+//@   ensures result == gkString(gk.Group, gk.Kind)
+//@ end
+
+// ---- ObjectMeta accessors (one-line field getters in the library, body not loaded) ----
+//@ func (*k8s.io/apimachinery/pkg/apis/meta/v1.ObjectMeta).GetAnnotations
+//@   trusted
+//@   note library accessor, body not loaded: returns the Annotations field
+//@   pure
+//@   ensures result == meta.Annotations
+//@ end
+//@ func (*k8s.io/apimachinery/pkg/apis/meta/v1.ObjectMeta).GetName
+//@   trusted
+//@   note library accessor, body not loaded: returns the Name field
+//@   pure
+//@   ensures result == meta.Name
+//@ end
+//@ func (*k8s.io/apimachinery/pkg/apis/meta/v1.ObjectMeta).GetNamespace
+//@   trusted
+//@   note library accessor, body not loaded: returns the Namespace field
+//@   pure
+//@   ensures result == meta.Namespace
+//@ end
+//@ func (*k8s.io/apimachinery/pkg/apis/meta/v1.ObjectMeta).GetUID
+//@   trusted
+//@   note library accessor, body not loaded: returns the UID field
+//@   pure
+//@   ensures result == meta.UID
+//@ end
+
+// ---- cluster reads (ASSUMED): within one reconcile "without external change" the API server's answers
+// are functions of the key. pcExists(n): a PriorityClass named n can be fetched. cmExists/cmData: the
+// defaults ConfigMap.
+//@ declare pcExists(name string) bool
+//@ declare cmExists(ns string, name string) bool
+//@ declare cmData(ns string, name string) map[string]string
+//@ import schedulingv1 "k8s.io/api/scheduling/v1"
+//@ define asCM(o ref) *v1.ConfigMap = unbox(o, "*v1.ConfigMap")
+//@ func sigs.k8s.io/controller-runtime/pkg/client.Reader.Get
+//@   props C18
+//@   requires obj != nil
+//@   modifies fields(asCM(obj))
+//@   ensures typeis(obj, "*schedulingv1.PriorityClass") ==> (result == nil) == pcExists(key.Name)
+//@   ensures typeis(obj, "*v1.ConfigMap") ==> (result == nil) == cmExists(key.Namespace, key.Name)
+//@   ensures typeis(obj, "*v1.ConfigMap") && result == nil ==> asCM(obj).Data == cmData(key.Namespace, key.Name)
+//@ end
+
+// C18 "priority class ... depend[s] only on the owner chain and pod template": the explicitly requested
+// class is the owner's priorityClassName label, else the pod's label, else the pod spec's class.
+//@ define pcLabelOf(ownerLabels map[string]string, pod *v1.Pod) string = ite(constants.PriorityLabelKey in ownerLabels, ownerLabels[constants.PriorityLabelKey], ite(constants.PriorityLabelKey in pod.Labels, pod.Labels[constants.PriorityLabelKey], ite(len(pod.Spec.PriorityClassName) != 0, pod.Spec.PriorityClassName, "")))
+//@ func (*DefaultGrouper).calcPodGroupPriorityClass
+//@   props C18
+//@   requires owner != nil && pod != nil
+//@   pure
+//@   ensures [requestedClass] result == pcLabelOf(owner.Labels, pod)
+//@ end
+
+// a requested class counts only if it names a PriorityClass that exists in the cluster
+//@ define pcValid(dg *DefaultGrouper, name string) bool = name != "" && dg.kubeReader != nil && pcExists(name)
+//@ func (*DefaultGrouper).validatePriorityClassExists
+//@   props C18
+//@   requires dg != nil
+//@   pure
+//@   ensures [validIffExists] result == pcValid(dg, priorityClassName)
+//@ end
+
+// ---- per-kind defaults (ConfigMap) ----
+// selectDefaultsForKind: the entry stored under "Kind.group", else the one stored under "Kind".
+//@ define dfltUsable(m map[string]workloadTypePriorityConfig, group string, kind string) bool = m != nil && len(m) != 0 && gkString(group, kind) != ""
+//@ define dfltFound(m map[string]workloadTypePriorityConfig, group string, kind string) bool = dfltUsable(m, group, kind) && ((gkString(group, kind) in m) || (kind in m))
+//@ define dfltPrio(m map[string]workloadTypePriorityConfig, group string, kind string) string = ite(gkString(group, kind) in m, m[gkString(group, kind)].PriorityName, m[kind].PriorityName)
+//@ define dfltPreempt(m map[string]workloadTypePriorityConfig, group string, kind string) string = ite(gkString(group, kind) in m, m[gkString(group, kind)].Preemptibility, m[kind].Preemptibility)
+//@ func selectDefaultsForKind
+//@   props C18
+//@   pure
+//@   ensures [found] result1 == (groupKind != nil && dfltFound(defaults, groupKind.Group, groupKind.Kind))
+//@   ensures [prio] result0.PriorityName == ite(result1, dfltPrio(defaults, groupKind.Group, groupKind.Kind), "")
+//@   ensures [preempt] result0.Preemptibility == ite(result1, dfltPreempt(defaults, groupKind.Group, groupKind.Kind), "")
+//@ end
+
+//@ define dfltPrioName(m map[string]workloadTypePriorityConfig, group string, kind string) string = ite(dfltFound(m, group, kind) && kind != "", dfltPrio(m, group, kind), "")
+//@ func (*DefaultGrouper).getDefaultPriorityClassNameForKind
+//@   props C18
+//@   pure
+//@   ensures [defaultOfKind] result == ite(groupKind != nil, dfltPrioName(defaultConfigs, groupKind.Group, groupKind.Kind), "")
+//@ end
+
+// json.Unmarshal (ASSUMED): writes only the decoded value behind v; for the defaults ConfigMap v is the
+// address of the local []workloadTypePriorityConfig. The decoded content is a function of the text: see the
+// `trust` clauses of parseConfigMapDataToDefaultConfigs.
+//@ define asCfgs(v ref) *[]workloadTypePriorityConfig = unbox(v, "*[]workloadTypePriorityConfig")
+//@ func encoding/json.Unmarshal
+//@   props C18
+//@   requires v != nil
+//@   modifies *asCfgs(v)
+//@ end
+
+//@ func configsToMapPerGroupKind
+//@   props C18 C10
+//@   requires configs != nil
+//@   fresh
+//@   loop 1
+//@     invariant res != nil && rangeindex >= -1
+//@   ensures [nonNil] result != nil
+//@ end
+
+// content of the decoded defaults table as a function of the ConfigMap text
+//@ declare cfgBad(data string) bool
+//@ declare cfgLen(data string) int
+//@ declare cfgHas(data string, k string) bool
+//@ declare cfgPrioOf(data string, k string) string
+//@ declare cfgPreemptOf(data string, k string) string
+//@ define cfgIs(m map[string]workloadTypePriorityConfig, data string) bool = m != nil && len(m) == cfgLen(data) && (forall k string :: ((k in m) == cfgHas(data, k)) && m[k].PriorityName == cfgPrioOf(data, k) && m[k].Preemptibility == cfgPreemptOf(data, k))
+// C10 "completes on any API state": a missing ConfigMap payload is an error result, never a panic.
+//@ func parseConfigMapDataToDefaultConfigs
+//@   props C18 C10
+//@   fresh
+//@   ensures [emptyIsError] (cm == nil || cm.Data == nil || !(constants.DefaultPrioritiesConfigMapTypesKey in cm.Data)) ==> result1 != nil && result0 == nil
+//@   ensures [errorNoMap] result1 != nil ==> result0 == nil
+//@   trust [decodeError] !(cm == nil || cm.Data == nil || !(constants.DefaultPrioritiesConfigMapTypesKey in cm.Data)) ==> (result1 != nil) == cfgBad(cm.Data[constants.DefaultPrioritiesConfigMapTypesKey])
+//@   trust [decodeDeterministic] result1 == nil ==> cfgIs(result0, cm.Data[constants.DefaultPrioritiesConfigMapTypesKey])
+//@   note trust: encoding/json decoding (reflection) is outside the subset; assumed to be a deterministic function of the text
+//@ end
+
+// C18 "without external change": the defaults table is a function of the grouper's configuration and the
+// ConfigMap stored in the cluster. Not configured = empty table, no error.
+//@ define cfgConfigured(dg *DefaultGrouper) bool = dg.defaultConfigPerTypeConfigMapName != "" && dg.defaultConfigPerTypeConfigMapNamespace != "" && dg.kubeReader != nil
+//@ define cfgText(dg *DefaultGrouper) string = cmData(dg.defaultConfigPerTypeConfigMapNamespace, dg.defaultConfigPerTypeConfigMapName)[constants.DefaultPrioritiesConfigMapTypesKey]
+//@ define cfgFails(dg *DefaultGrouper) bool = cfgConfigured(dg) && (!cmExists(dg.defaultConfigPerTypeConfigMapNamespace, dg.defaultConfigPerTypeConfigMapName) || cmData(dg.defaultConfigPerTypeConfigMapNamespace, dg.defaultConfigPerTypeConfigMapName) == nil || !(constants.DefaultPrioritiesConfigMapTypesKey in cmData(dg.defaultConfigPerTypeConfigMapNamespace, dg.defaultConfigPerTypeConfigMapName)) || cfgBad(cfgText(dg)))
+//@ func (*DefaultGrouper).getDefaultConfigsPerTypeMapping
+//@   props C18 C10
+//@   requires dg != nil
+//@   fresh
+//@   ensures [errIff] (result1 != nil) == cfgFails(dg)
+//@   ensures [unconfiguredEmpty] !cfgConfigured(dg) ==> result0 != nil && len(result0) == 0
+//@   ensures [tableOfConfigMap] cfgConfigured(dg) && result1 == nil ==> cfgIs(result0, cfgText(dg))
+//@   ensures [errorNoMap] result1 != nil ==> result0 == nil
+//@ end
+
+// ---- priority class of a workload -------------------------------------------------------------------
+// the per-kind default, read off the ConfigMap text (no table object involved: a function of cluster state)
+//@ define tFound(data string, group string, kind string) bool = cfgLen(data) != 0 && gkString(group, kind) != "" && (cfgHas(data, gkString(group, kind)) || cfgHas(data, kind))
+//@ define tPrioName(data string, group string, kind string) string = ite(tFound(data, group, kind) && kind != "", ite(cfgHas(data, gkString(group, kind)), cfgPrioOf(data, gkString(group, kind)), cfgPrioOf(data, kind)), "")
+//@ define tPreempt(data string, group string, kind string) string = ite(tFound(data, group, kind), ite(cfgHas(data, gkString(group, kind)), cfgPreemptOf(data, gkString(group, kind)), cfgPreemptOf(data, kind)), "")
+//@ define dgPrioDefault(dg *DefaultGrouper, group string, kind string) string = ite(cfgConfigured(dg), tPrioName(cfgText(dg), group, kind), "")
+//@ define dgPreemptDefault(dg *DefaultGrouper, group string, kind string) string = ite(cfgConfigured(dg), tPreempt(cfgText(dg), group, kind), "")
+// m is the defaults table of dg (as produced by getDefaultConfigsPerTypeMapping)
+//@ define tableOf(dg *DefaultGrouper, m map[string]workloadTypePriorityConfig) bool = ite(cfgConfigured(dg), cfgIs(m, cfgText(dg)), m != nil && len(m) == 0)
+
+//@ define ownerPc(o *metav1.PartialObjectMetadata, pod *v1.Pod) string = pcLabelOf(o.Labels, pod)
+//@ define ownerDfltPc(dg *DefaultGrouper, o *metav1.PartialObjectMetadata) string = dgPrioDefault(dg, gvGroup(o.APIVersion), o.Kind)
+//@ define noExplicitPc(dg *DefaultGrouper, owners []*metav1.PartialObjectMetadata, pod *v1.Pod) bool = forall i int :: 0 <= i && i < len(owners) ==> !pcValid(dg, ownerPc(owners[i], pod))
+//@ define noDefaultPc(dg *DefaultGrouper, owners []*metav1.PartialObjectMetadata) bool = forall i int :: 0 <= i && i < len(owners) ==> !pcValid(dg, ownerDfltPc(dg, owners[i]))
+
+// C18 "priority class ... depend[s] only on the owner chain and pod template, not on which pod is reconciled
+// first or how often": the class is (1) the explicitly requested class of the FIRST owner in the chain whose
+// request names an existing PriorityClass, else (2) on a broken defaults ConfigMap the per-plugin fallback,
+// else (3) the per-kind default of the FIRST owner whose default exists, else (4) the per-plugin fallback.
+// Every input is an owner label / kind, a pod-template field (labels, spec.priorityClassName) or cluster state.
+//@ func (*DefaultGrouper).calcPriorityClassWithDefaults
+//@   props C18
+//@   requires dg != nil && pod != nil
+//@   requires forall i int :: 0 <= i && i < len(allOwners) ==> allOwners[i] != nil
+//@   loop 1
+//@     invariant rangeindex >= -1
+//@     invariant forall i int :: 0 <= i && i <= rangeindex ==> !pcValid(dg, ownerPc(allOwners[i], pod))
+//@   loop 2
+//@     invariant rangeindex >= -1
+//@     invariant forall i int :: 0 <= i && i <= rangeindex ==> !pcValid(dg, ownerDfltPc(dg, allOwners[i]))
+//@   ensures [explicitFirst] forall i int :: 0 <= i && i < len(allOwners) && pcValid(dg, ownerPc(allOwners[i], pod)) && (forall j int :: 0 <= j && j < i ==> !pcValid(dg, ownerPc(allOwners[j], pod))) ==> result0 == ownerPc(allOwners[i], pod) && result1 == nil
+//@   ensures [configError] noExplicitPc(dg, allOwners, pod) && cfgFails(dg) ==> result0 == defaultPriorityClassForJob && result1 == nil
+//@   ensures [defaultFirst] noExplicitPc(dg, allOwners, pod) && !cfgFails(dg) ==> (forall i int :: 0 <= i && i < len(allOwners) && pcValid(dg, ownerDfltPc(dg, allOwners[i])) && (forall j int :: 0 <= j && j < i ==> !pcValid(dg, ownerDfltPc(dg, allOwners[j]))) ==> result0 == ownerDfltPc(dg, allOwners[i]))
+//@   ensures [fallback] noExplicitPc(dg, allOwners, pod) && !cfgFails(dg) && noDefaultPc(dg, allOwners) ==> result0 == defaultPriorityClassForJob
+//@   ensures [table] result1 == nil || (tableOf(dg, result1) && !cfgFails(dg))
+//@   ensures [tableWhenSearched] noExplicitPc(dg, allOwners, pod) && !cfgFails(dg) ==> result1 != nil
+//@ end
+
+// ---- preemptibility of a workload ---------------------------------------------------------------------
+//@ define prValid(s string) bool = s == "preemptible" || s == "non-preemptible" || s == ""
+//@ define ownerPrOK(o *metav1.PartialObjectMetadata) bool = (constants.PreemptibilityLabelKey in o.Labels) && prValid(o.Labels[constants.PreemptibilityLabelKey])
+//@ define podPrOK(pod *v1.Pod) bool = (constants.PreemptibilityLabelKey in pod.Labels) && prValid(pod.Labels[constants.PreemptibilityLabelKey])
+//@ define noExplicitPr(owners []*metav1.PartialObjectMetadata, pod *v1.Pod) bool = (forall i int :: 0 <= i && i < len(owners) ==> !ownerPrOK(owners[i])) && !podPrOK(pod)
+//@ define ownerDfltPr(dg *DefaultGrouper, o *metav1.PartialObjectMetadata) string = strings.ToLower(dgPreemptDefault(dg, gvGroup(o.APIVersion), o.Kind))
+//@ define ownerDfltPrOK(dg *DefaultGrouper, o *metav1.PartialObjectMetadata) bool = dgPreemptDefault(dg, gvGroup(o.APIVersion), o.Kind) != "" && prValid(ownerDfltPr(dg, o))
+
+// C18 "preemptibility ... depend[s] only on the owner chain and pod template": (1) the first owner in the chain
+// carrying a well-formed kai.scheduler/preemptibility label, else (2) the pod's label, else (3) the per-kind default
+// of the first owner that has a well-formed one, else "" (priority-derived). A broken defaults ConfigMap gives "".
+//@ func (*DefaultGrouper).calcPodGroupPreemptibilityWithDefaults
+//@   props C18
+//@   requires dg != nil && pod != nil
+//@   requires forall i int :: 0 <= i && i < len(allOwners) ==> allOwners[i] != nil
+//@   requires defaults == nil || (tableOf(dg, defaults) && !cfgFails(dg))
+//@   loop 1
+//@     invariant rangeindex >= -1
+//@     invariant forall i int :: 0 <= i && i <= rangeindex ==> !ownerPrOK(allOwners[i])
+//@   loop 2
+//@     invariant rangeindex >= -1
+//@     invariant forall i int :: 0 <= i && i <= rangeindex ==> !ownerDfltPrOK(dg, allOwners[i])
+//@   ensures [explicitFirst] forall i int :: 0 <= i && i < len(allOwners) && ownerPrOK(allOwners[i]) && (forall j int :: 0 <= j && j < i ==> !ownerPrOK(allOwners[j])) ==> result == allOwners[i].Labels[constants.PreemptibilityLabelKey]
+//@   ensures [podLabel] (forall i int :: 0 <= i && i < len(allOwners) ==> !ownerPrOK(allOwners[i])) && podPrOK(pod) ==> result == pod.Labels[constants.PreemptibilityLabelKey]
+//@   ensures [configError] noExplicitPr(allOwners, pod) && cfgFails(dg) ==> result == ""
+//@   ensures [defaultFirst] noExplicitPr(allOwners, pod) && !cfgFails(dg) ==> (forall i int :: 0 <= i && i < len(allOwners) && ownerDfltPrOK(dg, allOwners[i]) && (forall j int :: 0 <= j && j < i ==> !ownerDfltPrOK(dg, allOwners[j])) ==> result == ownerDfltPr(dg, allOwners[i]))
+//@   ensures [none] noExplicitPr(allOwners, pod) && !cfgFails(dg) && (forall i int :: 0 <= i && i < len(allOwners) ==> !ownerDfltPrOK(dg, allOwners[i])) ==> result == ""
+//@   ensures [wellFormed] prValid(result)
+//@ end
+
+// closed form of the priority class for a chain of ONE owner (labels, apiVersion, kind) - what every per-kind
+// plugin gets when it calls the default grouper without the owner chain
+//@ define prio1(dg *DefaultGrouper, labels map[string]string, apiVersion string, kind string, pod *v1.Pod, dflt string) string = ite(pcValid(dg, pcLabelOf(labels, pod)), pcLabelOf(labels, pod), ite(cfgFails(dg), dflt, ite(pcValid(dg, dgPrioDefault(dg, gvGroup(apiVersion), kind)), dgPrioDefault(dg, gvGroup(apiVersion), kind), dflt)))
+//@ define ownerPrio(dg *DefaultGrouper, o *unstructured.Unstructured, pod *v1.Pod, dflt string) string = prio1(dg, ownerLabels(o), ownerAPIVersion(o), ownerKind(o), pod, dflt)
+
+// C18: the priority class computed from the top owner alone is a function of the owner's labels and kind, the
+// pod-template fields (priorityClassName label / spec) and cluster state; the fallback is the caller's constant.
+//@ func (*DefaultGrouper).CalcPodGroupPriorityClass
+//@   props C18
+//@   requires dg != nil && pod != nil && topOwner != nil
+//@   ensures [ofOwnerAndTemplate] result == ownerPrio(dg, topOwner, pod, defaultPriorityClassForJob)
+//@ end
+
+//@ func unstructuredToPartialObjectMetadata
+//@   props C18
+//@   requires topOwner != nil
+//@   fresh
+//@   ensures [typeMeta] result.APIVersion == ownerAPIVersion(topOwner) && result.Kind == ownerKind(topOwner)
+//@   ensures [objectMeta] result.Name == ownerName(topOwner) && result.Namespace == ownerNamespace(topOwner) && result.Labels == ownerLabels(topOwner) && result.Annotations == ownerAnnotations(topOwner)
+//@ end
+
+// C18 "reconciling again without external change writes nothing": the annotations are the owner's annotations,
+// plus the pod's "user" annotation and the marshalled top-owner record where the owner does not set those keys.
+//@ import commonconsts "github.com/NVIDIA/KAI-scheduler/pkg/common/constants"
+//@ define topYaml(o *unstructured.Unstructured) string = topowner.yamlOf(ownerName(o), ownerUID(o), gvGroup(ownerAPIVersion(o)), gvVersion(ownerAPIVersion(o)), ownerKind(o))
+//@ define topYamlFails(o *unstructured.Unstructured) bool = topowner.yamlFails(ownerName(o), ownerUID(o), gvGroup(ownerAPIVersion(o)), gvVersion(ownerAPIVersion(o)), ownerKind(o))
+//@ func (*DefaultGrouper).CalcPodGroupAnnotations
+//@   props C18
+//@   requires topOwner != nil && pod != nil
+//@   fresh
+//@   ensures [nonNil] result != nil
+//@   ensures [keys] forall k string :: (k in result) == ((k in ownerAnnotations(topOwner)) || (k == constants.UserLabelKey && (constants.UserLabelKey in pod.Annotations)) || (k == commonconsts.TopOwnerMetadataKey && !topYamlFails(topOwner)))
+//@   ensures [values] forall k string :: (k in result) ==> result[k] == ite(k in ownerAnnotations(topOwner), ownerAnnotations(topOwner)[k], ite(k == constants.UserLabelKey, pod.Annotations[constants.UserLabelKey], topYaml(topOwner)))
+//@ end
+
+// ---- the default PodGroup metadata -------------------------------------------------------------------------
+// closed forms (functions of the top owner, the named pod-template fields, the grouper configuration, cluster state)
+//@ define pgName(o *unstructured.Unstructured) string = fmt.Sprintf("%s-%s-%s", constants.PodGroupNamePrefix, ownerName(o), ownerUID(o))
+//@ define queueOf(dg *DefaultGrouper, o *unstructured.Unstructured, pod *v1.Pod) string = ite(dg.queueLabelKey in ownerLabels(o), ownerLabels(o)[dg.queueLabelKey], ite(dg.queueLabelKey in pod.Labels, pod.Labels[dg.queueLabelKey], ite(projectOf(o, pod) == "", constants.DefaultQueueName, ite(dg.nodePoolLabelKey in pod.Labels, ite(projectPool(dg, o, pod) == "", constants.DefaultQueueName, projectPool(dg, o, pod)), projectOf(o, pod)))))
+//@ define preempt1(dg *DefaultGrouper, labels map[string]string, apiVersion string, kind string, pod *v1.Pod) string = ite((constants.PreemptibilityLabelKey in labels) && prValid(labels[constants.PreemptibilityLabelKey]), labels[constants.PreemptibilityLabelKey], ite(podPrOK(pod), pod.Labels[constants.PreemptibilityLabelKey], ite(cfgFails(dg), "", ite(dgPreemptDefault(dg, gvGroup(apiVersion), kind) != "" && prValid(strings.ToLower(dgPreemptDefault(dg, gvGroup(apiVersion), kind))), strings.ToLower(dgPreemptDefault(dg, gvGroup(apiVersion), kind)), ""))))
+//@ define ownerPreempt(dg *DefaultGrouper, o *unstructured.Unstructured, pod *v1.Pod) string = preempt1(dg, ownerLabels(o), ownerAPIVersion(o), ownerKind(o), pod)
+
+// bundles used by the per-kind plugin contracts (defaultgrouper.baseXxx(result, ...)): "this part of the metadata is
+// the default one", each a function of the top owner and of named pod-template fields only
+//@ import podgroup "github.com/NVIDIA/KAI-scheduler/pkg/podgrouper/podgroup"
+//@ define baseOwnerRef(m *podgroup.Metadata, o *unstructured.Unstructured) bool = m.Owner.APIVersion == ownerAPIVersion(o) && m.Owner.Kind == ownerKind(o) && m.Owner.Name == ownerName(o) && m.Owner.UID == ownerUID(o)
+//@ define baseLabels(m *podgroup.Metadata, o *unstructured.Unstructured, pod *v1.Pod) bool = m.Labels != nil && (forall k string :: k != constants.UserLabelKey ==> ((k in m.Labels) == (k in ownerLabels(o))) && m.Labels[k] == ownerLabels(o)[k]) && ((constants.UserLabelKey in m.Labels) == ((constants.UserLabelKey in ownerLabels(o)) || (constants.UserLabelKey in pod.Labels))) && m.Labels[constants.UserLabelKey] == ite(constants.UserLabelKey in ownerLabels(o), ownerLabels(o)[constants.UserLabelKey], pod.Labels[constants.UserLabelKey])
+//@ define baseAnnotations(m *podgroup.Metadata, o *unstructured.Unstructured, pod *v1.Pod) bool = m.Annotations != nil && (forall k string :: ((k in m.Annotations) == ((k in ownerAnnotations(o)) || (k == constants.UserLabelKey && (constants.UserLabelKey in pod.Annotations)) || (k == commonconsts.TopOwnerMetadataKey && !topYamlFails(o)))) && ((k in m.Annotations) ==> m.Annotations[k] == ite(k in ownerAnnotations(o), ownerAnnotations(o)[k], ite(k == constants.UserLabelKey, pod.Annotations[constants.UserLabelKey], topYaml(o)))))
+//@ define baseTopology(m *podgroup.Metadata, o *unstructured.Unstructured) bool = m.PreferredTopologyLevel == ownerAnnotations(o)[constants.TopologyPreferredPlacementKey] && m.RequiredTopologyLevel == ownerAnnotations(o)[constants.TopologyRequiredPlacementKey] && m.Topology == ownerAnnotations(o)[constants.TopologyKey]
+
+// Property C18: "[the PodGroup's] name, minimum member count, queue, priority class, preemptibility and sub-groups depend
+// only on the owner chain and pod template, not on which pod is reconciled first or how often": every field of the
+// default metadata is stated as a closed function of the top owner (name, UID, apiVersion, kind, labels, annotations),
+// of the pod-template fields namespace / labels[user, queue, project, node-pool, priorityClassName, preemptibility] /
+// annotations[user] / spec.priorityClassName, of the grouper configuration and of cluster state. The pod's name, UID,
+// index, node and status do not occur.
+//@ func (*DefaultGrouper).GetPodGroupMetadata
+//@   props C18
+//@   requires dg != nil && topOwner != nil && pod != nil
+//@   requires forall i int :: 0 <= i && i < len(allOwners) ==> allOwners[i] != nil
+//@   ensures [noError] result1 == nil && result0 != nil && fresh(result0)
+//@   ensures [ownerRef] baseOwnerRef(result0, topOwner)
+//@   ensures [namespace] result0.Namespace == pod.Namespace
+//@   ensures [nameOfOwnerOnly] result0.Name == pgName(topOwner)
+//@   ensures [queue] result0.Queue == queueOf(dg, topOwner, pod)
+//@   ensures [labels] baseLabels(result0, topOwner, pod) && fresh(result0.Labels)
+//@   ensures [annotations] baseAnnotations(result0, topOwner, pod) && fresh(result0.Annotations)
+//@   ensures [minAvailableOne] result0.MinAvailable == 1
+//@   ensures [noSubGroups] len(result0.SubGroups) == 0
+//@   ensures [topology] baseTopology(result0, topOwner)
+//@   ensures [priorityTopOwnerOnly] len(allOwners) == 0 ==> result0.PriorityClassName == ownerPrio(dg, topOwner, pod, constants.TrainPriorityClass)
+//@   ensures [preemptibilityTopOwnerOnly] len(allOwners) == 0 ==> result0.Preemptibility == ownerPreempt(dg, topOwner, pod)
+//@   ensures [preemptibilityWellFormed] prValid(result0.Preemptibility)
+//@   # with an owner chain: first match along the chain (same four-step rule as calcPriorityClassWithDefaults)
+//@   ensures [chainPriorityExplicitFirst] len(allOwners) > 0 ==> (forall i int :: 0 <= i && i < len(allOwners) && pcValid(dg, ownerPc(allOwners[i], pod)) && (forall j int :: 0 <= j && j < i ==> !pcValid(dg, ownerPc(allOwners[j], pod))) ==> result0.PriorityClassName == ownerPc(allOwners[i], pod))
+//@   ensures [chainPriorityConfigError] len(allOwners) > 0 && noExplicitPc(dg, allOwners, pod) && cfgFails(dg) ==> result0.PriorityClassName == constants.TrainPriorityClass
+//@   ensures [chainPriorityDefaultFirst] len(allOwners) > 0 && noExplicitPc(dg, allOwners, pod) && !cfgFails(dg) ==> (forall i int :: 0 <= i && i < len(allOwners) && pcValid(dg, ownerDfltPc(dg, allOwners[i])) && (forall j int :: 0 <= j && j < i ==> !pcValid(dg, ownerDfltPc(dg, allOwners[j]))) ==> result0.PriorityClassName == ownerDfltPc(dg, allOwners[i]))
+//@   ensures [chainPriorityFallback] len(allOwners) > 0 && noExplicitPc(dg, allOwners, pod) && !cfgFails(dg) && noDefaultPc(dg, allOwners) ==> result0.PriorityClassName == constants.TrainPriorityClass
+//@   ensures [chainPreemptExplicitFirst] len(allOwners) > 0 ==> (forall i int :: 0 <= i && i < len(allOwners) && ownerPrOK(allOwners[i]) && (forall j int :: 0 <= j && j < i ==> !ownerPrOK(allOwners[j])) ==> result0.Preemptibility == allOwners[i].Labels[constants.PreemptibilityLabelKey])
+//@   ensures [chainPreemptPodLabel] len(allOwners) > 0 && (forall i int :: 0 <= i && i < len(allOwners) ==> !ownerPrOK(allOwners[i])) && podPrOK(pod) ==> result0.Preemptibility == pod.Labels[constants.PreemptibilityLabelKey]
+//@   ensures [chainPreemptConfigError] len(allOwners) > 0 && noExplicitPr(allOwners, pod) && cfgFails(dg) ==> result0.Preemptibility == ""
+//@   ensures [chainPreemptDefaultFirst] len(allOwners) > 0 && noExplicitPr(allOwners, pod) && !cfgFails(dg) ==> (forall i int :: 0 <= i && i < len(allOwners) && ownerDfltPrOK(dg, allOwners[i]) && (forall j int :: 0 <= j && j < i ==> !ownerDfltPrOK(dg, allOwners[j])) ==> result0.Preemptibility == ownerDfltPr(dg, allOwners[i]))
+//@   ensures [chainPreemptNone] len(allOwners) > 0 && noExplicitPr(allOwners, pod) && !cfgFails(dg) && (forall i int :: 0 <= i && i < len(allOwners) ==> !ownerDfltPrOK(dg, allOwners[i])) ==> result0.Preemptibility == ""
+//@ end
+// the part of the default metadata that no per-kind plugin (except grove) overrides
+//@ define baseCommon(m *podgroup.Metadata, dg *DefaultGrouper, o *unstructured.Unstructured, pod *v1.Pod) bool = m.Namespace == pod.Namespace && m.Queue == queueOf(dg, o, pod) && baseLabels(m, o, pod) && baseAnnotations(m, o, pod) && baseTopology(m, o) && m.Preemptibility == ownerPreempt(dg, o, pod)
+
+// ---- cluster reads used by the per-kind plugins (ASSUMED functions of the key within one reconcile) ----
+// outcome of fetching the PodGroup ns/name (nil = it exists); isNotFound classifies an error value
+//@ declare pgGetErr(ns string, name string) error
+//@ declare isNotFound(e error) bool
+//@ axiom !isNotFound(nil)
+// fetching an object as *unstructured.Unstructured: the outcome and the content are functions of (apiVersion, kind,
+// namespace, name). stored(...) names "the object as stored in the cluster"; a successful Get makes the fetched object
+// indistinguishable from it for every accessor the groupers use. (Accessors are rigid functions of the object
+// reference: an unstructured object is configured (SetGroupVersionKind / SetAPIVersion / SetKind), fetched once and
+// then only read. The one place that rewrites labels of a fetched object, skiptopowner.propagateMetadataDownChain, is
+// handled separately.)
+//@ declare stored(apiVersion string, kind string, ns string, name string) *unstructured.Unstructured
+//@ declare getErr(apiVersion string, kind string, ns string, name string) error
+//@ declare apiVersionOf(group string, version string) string
+//@ define sameObject(a *unstructured.Unstructured, b *unstructured.Unstructured) bool = ownerName(a) == ownerName(b) && ownerUID(a) == ownerUID(b) && ownerLabels(a) == ownerLabels(b) && ownerAnnotations(a) == ownerAnnotations(b) && ownerAPIVersion(a) == ownerAPIVersion(b) && ownerKind(a) == ownerKind(b) && ownerNamespace(a) == ownerNamespace(b) && a.Object == b.Object
+//@ func (*k8s.io/apimachinery/pkg/apis/meta/v1/unstructured.Unstructured).SetGroupVersionKind
+//@   trusted
+//@   note library: SetAPIVersion(gvk.GroupVersion().String()); SetKind(gvk.Kind) on an object nobody has read yet; rigid-accessor model (see stored)
+//@   pure
+//@   ensures ownerAPIVersion(u) == apiVersionOf(gvk.Group, gvk.Version) && ownerKind(u) == gvk.Kind
+//@ end
+//@ func (*k8s.io/apimachinery/pkg/apis/meta/v1/unstructured.Unstructured).SetAPIVersion
+//@   trusted
+//@   note library setter on an object nobody has read yet; rigid-accessor model (see stored)
+//@   pure
+//@   ensures ownerAPIVersion(u) == version
+//@ end
+//@ func (*k8s.io/apimachinery/pkg/apis/meta/v1/unstructured.Unstructured).SetKind
+//@   trusted
+//@   note library setter on an object nobody has read yet; rigid-accessor model (see stored)
+//@   pure
+//@   ensures ownerKind(u) == kind
+//@ end
